@@ -321,6 +321,33 @@ func buildLeaves() []*Leaf {
 				return strings.Join(p, ",")
 			},
 			Gen: func(r *fw.Rand, uniq int) reflect.Value { return rv([]uint16{uint16(uniq), 65535}) }},
+		{Name: "[]int32", Type: reflect.TypeOf([]int32{}), Caps: CapEnv | CapFlag | CapRef,
+			Text: func(v reflect.Value) string {
+				p := []string{}
+				for _, x := range v.Interface().([]int32) {
+					p = append(p, strconv.FormatInt(int64(x), 10))
+				}
+				return strings.Join(p, ",")
+			},
+			Gen: func(r *fw.Rand, uniq int) reflect.Value { return rv([]int32{int32(uniq), math.MinInt32, math.MaxInt32}) }},
+		{Name: "[]int64", Type: reflect.TypeOf([]int64{}), Caps: CapEnv | CapFlag | CapRef,
+			Text: func(v reflect.Value) string {
+				p := []string{}
+				for _, x := range v.Interface().([]int64) {
+					p = append(p, strconv.FormatInt(x, 10))
+				}
+				return strings.Join(p, ",")
+			},
+			Gen: func(r *fw.Rand, uniq int) reflect.Value { return rv([]int64{int64(uniq), math.MinInt64, math.MaxInt64}) }},
+		{Name: "[]uint32", Type: reflect.TypeOf([]uint32{}), Caps: CapEnv | CapFlag | CapRef,
+			Text: func(v reflect.Value) string {
+				p := []string{}
+				for _, x := range v.Interface().([]uint32) {
+					p = append(p, strconv.FormatUint(uint64(x), 10))
+				}
+				return strings.Join(p, ",")
+			},
+			Gen: func(r *fw.Rand, uniq int) reflect.Value { return rv([]uint32{uint32(uniq), math.MaxUint32}) }},
 		{Name: "[]uint64", Type: reflect.TypeOf([]uint64{}), Caps: CapEnv | CapFlag | CapRef,
 			Text: func(v reflect.Value) string {
 				p := []string{}
